@@ -23,6 +23,18 @@ func sharesMemory(t types.Type) bool {
 	return false
 }
 
+// ExemptField, when set, names field addresses whose contents are not shared memory (a buffer exclusive to
+// the holder of a flag): loads of them are not derived from the roots, stores to them are not writes.
+var ExemptField func(*ssa.FieldAddr) bool
+
+func exemptAddr(v ssa.Value) bool {
+	if ExemptField == nil {
+		return false
+	}
+	fa, ok := v.(*ssa.FieldAddr)
+	return ok && ExemptField(fa)
+}
+
 // Derived computes the set of values of fn that may point into (or alias)
 // the memory reachable from the given root values.
 func Derived(fn *ssa.Function, roots ...ssa.Value) map[ssa.Value]bool {
@@ -64,7 +76,7 @@ func Derived(fn *ssa.Function, roots ...ssa.Value) map[ssa.Value]bool {
 						mark(t)
 					}
 				case *ssa.UnOp:
-					if t.Op == token.MUL && d[t.X] && sharesMemory(t.Type()) {
+					if t.Op == token.MUL && d[t.X] && sharesMemory(t.Type()) && !exemptAddr(t.X) {
 						mark(t)
 					}
 				case *ssa.Phi:
@@ -159,7 +171,7 @@ func WritesThrough(fn *ssa.Function, roots []ssa.Value, allowCall func(*ssa.Func
 				if _, local := t.Addr.(*ssa.Alloc); local {
 					continue
 				}
-				if d[t.Addr] {
+				if d[t.Addr] && !exemptAddr(t.Addr) {
 					out = append(out, Write{fn, t.Pos(), "store through " + t.Addr.String()})
 				}
 			case *ssa.MapUpdate:
